@@ -1977,6 +1977,22 @@ func bomOnlyAtStreamStart(c *Ctx) {
 			return
 		}
 		for _, ifi := range ifsInOnly(w) {
+			// the number of skipped bytes computed first: `skipped := advance - len(token); skipped > 0`
+			if dop, k, succ, ok := cmpConstEdge(ifi, func(v ssa.Value) bool {
+				b, ok := v.(*ssa.BinOp)
+				return ok && b.Op == token.SUB && isAdv(b.X) && isTokLen(b.Y)
+			}); ok {
+				e := -1
+				switch {
+				case (dop == token.GTR && k == 0) || (dop == token.GEQ && k == 1) || (dop == token.NEQ && k == 0):
+					e = succ
+				case (dop == token.LEQ && k == 0) || (dop == token.LSS && k == 1) || (dop == token.EQL && k == 0):
+					e = 1 - succ
+				}
+				if e >= 0 && edgeDominates(ifi.Block(), e, in.Block()) {
+					good = true
+				}
+			}
 			cnd := decodeIf(ifi)
 			if cnd.Y == nil {
 				continue
